@@ -304,7 +304,6 @@ pub fn b_{hn}<S: Src, R>(s: &mut S, k: impl FnOnce(SV<'_>, bool) -> R) -> R {{
     let (a0, a1, a2, a3) = (s.i64() as i32 as i64, s.i64() as i32 as i64, s.i64() as i32 as i64, s.i64() as i32 as i64);
     let nloc = s.below(3) as usize;
     let lk = match s.below(3) {{ 0 => K_ABSENT, 1 => K_NULL, _ => K_SEQ }};
-    let path_absent = s.bool();
     let nerr = s.below(3) as usize;
     let ek = match s.below(3) {{ 0 => K_ABSENT, 1 => K_NULL, _ => K_SEQ }};
     let dk = s.below(3);
@@ -315,7 +314,7 @@ pub fn b_{hn}<S: Src, R>(s: &mut S, k: impl FnOnce(SV<'_>, bool) -> R) -> R {{
         let l1 = [("line", SV::int(a2)), ("column", SV::int(a3)), ("zz", SV::int(0))];
         let locs = [SV::map(&l0), SV::map(&l1)];
         let loc_sv = SV {{ kind: lk, b: true, i: 7, f: 0.5, s: "x", seq: &locs[..nloc], map: &[] }};
-        let e0 = [("message", SV::str("boom")), ("locations", loc_sv), ("path", if path_absent {{ SV::absent() }} else {{ SV::null() }}), ("extensions", {ext_sv}), ("zz", SV::int(1))];
+        let e0 = [("message", SV::str("boom")), ("locations", loc_sv), ("path", {ext_sv}), ("extensions", {ext_sv}), ("zz", SV::int(1))];
         let e1 = [("message", SV::str("")), ("locations", SV::absent()), ("path", SV::absent()), ("extensions", SV::absent()), ("zz", SV::absent())];
         let errs = [SV::map(&e0), SV::map(&e1)];
         let err_sv = SV {{ kind: ek, b: true, i: 7, f: 0.5, s: "x", seq: &errs[..nerr], map: &[] }};
